@@ -79,29 +79,44 @@ def r1_table(rep, ctx):
     res = Resolver(m, fn)
     calls = [c for c in own_nodes(fn.node) if isinstance(c, ast.Call) and isinstance(c.func, ast.Attribute) and c.func.attr == "_RaiseValueError"]
     seen = {}
+    cfg = CFG(fn.node)
     for c in calls:
-        ifs = _enclosing_ifs(c, fn.node)
-        if not ifs:
-            rep.bad("C12.R1", "CheckValue:%s" % norm(ast.unparse(c)), "the rejection is unconditional", node=c, fn=fn)
-            continue
-        test = ifs[0][0].test
         key = "CheckValue:%s" % norm(ast.unparse(c))[:70]
-        if not (isinstance(test, ast.UnaryOp) and isinstance(test.op, ast.Not) and isinstance(test.operand, ast.Compare) and len(test.operand.ops) == 1 and type(test.operand.ops[0]) in OPS):
-            rep.bad("C12.R1", key, "the rejecting test `%s` is not of the NaN-rejecting form `not (value OP limit)`: a NaN value would be accepted" % ast.unparse(test), node=c, fn=fn)
+        raw = cfg.facts_at(cfg.node_of(c))
+        if not raw:
+            rep.bad("C12.R1", key, "the rejection is unconditional", node=c, fn=fn)
             continue
-        cmp_ = test.operand
+        # the comparison with a limit that holds (or fails) on every path to the rejection
+        cmp_fact = None
+        for e, val in raw:
+            if isinstance(e, ast.Compare) and len(e.ops) == 1 and type(e.ops[0]) in OPS and _limit_kind(res.term(e.comparators[0])):
+                cmp_fact = (e, val)
+        if cmp_fact is None:
+            rep.bad("C12.R1", key, "the rejection is not dominated by a comparison of the value with a limit", node=c, fn=fn)
+            continue
+        cmp_, val = cmp_fact
+        if val:
+            rep.bad("C12.R1", key, "the rejection is reached when `%s` is true: this is not the NaN-rejecting form `not (value OP limit)` - a NaN value would be accepted" % ast.unparse(cmp_), node=c, fn=fn)
+            continue
         op = OPS[type(cmp_.ops[0])]
         lim_t = res.term(cmp_.comparators[0])
         val_t = res.term(cmp_.left)
         kind = _limit_kind(lim_t)
-        excl = _excl_flag(ifs[1:], kind) if kind else None
+        excl = None
+        guarded = False
+        for e, v in raw:
+            te = res.term(e)
+            txt = show(te, 200)
+            if kind and txt.endswith("is_%s_exclusive" % kind):
+                excl = v
+            if isinstance(e, ast.Compare) and len(e.ops) == 1 and isinstance(e.comparators[0], ast.Constant) and e.comparators[0].value is None and _limit_kind(res.term(e.left)) == kind:
+                if (isinstance(e.ops[0], ast.IsNot) and v) or (isinstance(e.ops[0], ast.Is) and not v):
+                    guarded = True
         rep_op = c.args[1].value if len(c.args) > 1 and isinstance(c.args[1], ast.Constant) else None
         rep_lim = res.term(c.args[2]) if len(c.args) > 2 else None
         rep_val = res.term(c.args[0]) if c.args else None
         why = []
-        if kind is None:
-            why.append("the compared limit %s is neither min_value nor max_value" % show(lim_t))
-        elif excl is None:
+        if excl is None:
             why.append("the test is not inside an arm of is_%s_exclusive" % kind)
         else:
             want = TABLE[(kind, excl)]
@@ -114,15 +129,7 @@ def r1_table(rep, ctx):
             why.append("reports limit %s while testing %s" % (show(rep_lim) if rep_lim else None, show(lim_t)))
         if rep_val != val_t:
             why.append("reports another value than the one tested")
-        # the limit must be guarded by 'limit is not None'
-        guarded = False
-        if kind:
-            for n_, b_ in ifs:
-                t_ = n_.test
-                if isinstance(t_, ast.Compare) and len(t_.ops) == 1 and isinstance(t_.comparators[0], ast.Constant) and t_.comparators[0].value is None and _limit_kind(res.term(t_.left)) == kind:
-                    if (isinstance(t_.ops[0], ast.IsNot) and b_) or (isinstance(t_.ops[0], ast.Is) and not b_):
-                        guarded = True
-        if kind and not guarded:
+        if not guarded:
             why.append("the test is not guarded by '%s_value is not None'" % kind)
         rep.check(not why, "C12.R1", key, "%s limit, %s: `not value %s limit` reports %r and the same limit" % (kind, "exclusive" if excl else "inclusive", op, rep_op), "CheckValue: " + "; ".join(why), node=c, fn=fn)
     missing = [k for k in TABLE if seen.get(k, 0) != 1]
